@@ -228,9 +228,10 @@ static RunResult run_once(const std::vector<Op> &hist, const Op *op, int K, int 
   if (op) {
     if (g_reloc >= 1) relocate_all(w);
     g_final = true;
+    g_overlimit = false;
     apply(w, *op);
     g_final = false;
-    observe(w, tags_for(op->k));
+    observe(w, g_overlimit ? "C08" : tags_for(op->k));
     r.key_after = key_of(w);
   }
   pool_destroy(w);
